@@ -48,6 +48,8 @@ type c17Server struct {
 	finOnce   sync.Once
 	pace      time.Duration
 	slowPhase func() // non-nil while the slow-handler phase is running
+	interleave bool    // unperturbed stream with unique Headers / InSync messages between the notifications
+	order     []string // what was sent, in order (interleave family)
 }
 
 func (s *c17Server) logf(f string, a ...interface{}) {
@@ -119,6 +121,31 @@ func (s *c17Server) serve(vc *vconn) {
 				}
 			}
 		}
+		if s.interleave {
+			s.mu.Lock()
+			k2 := s.r.Intn(10)
+			s.mu.Unlock()
+			if k2 < 4 {
+				hd := vHeader(uint32(id))
+				mark := uint32(1000000 + id)
+				if !send(&Headers{StartHeight: mark, Headers: []*wire.BlockHeader{&hd}}, "headers") {
+					return
+				}
+				s.mu.Lock()
+				s.order = append(s.order, fmt.Sprintf("H%d", mark))
+				s.mu.Unlock()
+			} else if k2 < 5 {
+				if !send(&InSync{}, "insync") {
+					return
+				}
+				s.mu.Lock()
+				s.order = append(s.order, "S")
+				s.mu.Unlock()
+			}
+			s.mu.Lock()
+			s.order = append(s.order, fmt.Sprintf("T%d", id))
+			s.mu.Unlock()
+		}
 		if !send(c17Payload(id), fmt.Sprintf("id=%d", id)) {
 			return
 		}
@@ -142,6 +169,72 @@ func (s *c17Server) serve(vc *vconn) {
 
 func c17Check(rep *verifkit.Report, ci int, family string, e *cEnv, s *c17Server, nHandlers int, witness func() interface{}) {
 	evs := e.log.snapshot()
+	if family == "ready-back" {
+		// per declaration: what follows Ready(k) is k, k+1, ... (the application asked for a replay)
+		want := uint64(0)
+		var got []uint64
+		for _, ev := range evs {
+			if ev.Handler != 0 {
+				continue
+			}
+			switch ev.Kind {
+			case "ready":
+				want = ev.ID
+			case "tx", "update":
+				got = append(got, ev.ID)
+				if want == 0 {
+					continue
+				}
+				if ev.ID != want {
+					rep.Finding(ci, "C17/ready-back/delivery-does-not-start-at-declared-id", fmt.Sprintf("after Ready(%d) the next notification delivered is id %d (delivered so far: %v)", want, ev.ID, trunc(got, len(got))), witness())
+					return
+				}
+				want++
+			}
+		}
+		if len(got) == 0 || got[len(got)-1] != s.total {
+			rep.Finding(ci, "C17/ready-back/missed-notifications", fmt.Sprintf("the server resent every id from each declared id up to %d, the last delivered is %v", s.total, trunc(got, len(got))), witness())
+		}
+		if n := e.rc.NextMessageID(); len(got) > 0 && n != got[len(got)-1]+1 {
+			rep.Finding(ci, "C17/ready-back/next-message-id", fmt.Sprintf("NextMessageID()=%d, last delivered %d", n, got[len(got)-1]), witness())
+		}
+		return
+	}
+	if family == "interleaved" {
+		s.mu.Lock()
+		sent := append([]string(nil), s.order...)
+		s.mu.Unlock()
+		for h := 0; h < nHandlers; h++ {
+			var got []string
+			for _, ev := range evs {
+				if ev.Handler != h {
+					continue
+				}
+				switch ev.Kind {
+				case "tx", "update":
+					got = append(got, fmt.Sprintf("T%d", ev.ID))
+				case "headers":
+					got = append(got, fmt.Sprintf("H%d", ev.ID))
+				case "insync":
+					got = append(got, "S")
+				}
+			}
+			for i := 0; i < len(sent) && i < len(got); i++ {
+				if sent[i] != got[i] {
+					lo := i - 4
+					if lo < 0 {
+						lo = 0
+					}
+					rep.Finding(ci, "C17/interleaved/order-across-kinds", fmt.Sprintf("handler %d: position %d holds %s, the server sent %s there (sent %v, delivered %v)", h, i, got[i], sent[i], sent[lo:i+1], got[lo:i+1]), witness())
+					return
+				}
+			}
+			if len(got) != len(sent) {
+				rep.Finding(ci, "C17/interleaved/count", fmt.Sprintf("handler %d received %d notifications of %d sent", h, len(got), len(sent)), witness())
+				return
+			}
+		}
+	}
 	per := make([][]uint64, nHandlers)
 	for _, ev := range evs {
 		if ev.Kind == "tx" || ev.Kind == "update" {
@@ -196,7 +289,7 @@ func trunc(a []uint64, n int) []uint64 {
 
 func TestVerif_C17(t *testing.T) {
 	rep := verifkit.NewReport("C17")
-	rep.Rule = "each stream: the scripted server holds notifications with ids 1..K (Tx for odd, TxUpdate for even) and, like the real service, (re)sends from the id given in Ready on every connection, perturbed by duplicates, earlier ids, ids skipped ahead, interleaved Headers/InSync and connection drops at generated points; the application handler declares Ready(NextMessageID()) on every accept. A ChainTip marker through the same handler channel is the barrier. Families: normal (K<=60), backlog-drop (handler 3 ms per notification, drops while a backlog is queued, Ready declared from the handler's own progress), slow-handler (K=130, handler sleeps 25 ms per notification, message channel time-out 15 ms, so the 100-slot handler channel overflows). Non-trivial = stream contains a perturbation or a drop; distinct by perturbation sequence"
+	rep.Rule = "each stream: the scripted server holds notifications with ids 1..K (Tx for odd, TxUpdate for even) and, like the real service, (re)sends from the id given in Ready on every connection, perturbed by duplicates, earlier ids, ids skipped ahead, interleaved Headers/InSync and connection drops at generated points; the application handler declares Ready(NextMessageID()) on every accept. A ChainTip marker through the same handler channel is the barrier. Families: normal (K<=60), interleaved (unperturbed stream with unique Headers / InSync between the notifications: delivery order equals send order across kinds), ready-back (the application declares Ready(own last - d): delivery restarts exactly at the declared id), backlog-drop (handler 3 ms per notification, drops while a backlog is queued, Ready declared from the handler's own progress), slow-handler (K=130, handler sleeps 25 ms per notification, message channel time-out 15 ms, so the 100-slot handler channel overflows). Non-trivial = stream contains a perturbation or a drop; distinct by perturbation sequence"
 	rep.Assumptions = []string{"the scripted server resumes from the Ready id as the real service does", "barrier = marker message delivered through the client's FIFO handler channel"}
 	defer rep.Write()
 
@@ -226,6 +319,26 @@ func TestVerif_C17(t *testing.T) {
 			opt.readyOwn = true
 			opt.handlers = 1
 			s.total = uint64(40 + r.Intn(40))
+			s.dropsLeft = 1 + r.Intn(3)
+			s.perturb = false
+		}
+		if ci%6 == 3 {
+			// every kind of notification travels one channel to the handlers: their order is the
+			// order the server sent them in, across kinds
+			family = "interleaved"
+			s.interleave = true
+			s.perturb = false
+			s.dropsLeft = 0
+			s.total = uint64(40 + r.Intn(60))
+		}
+		if ci%6 == 2 {
+			// the application declares ready from its own records, which are up to three
+			// notifications behind what it has handled: it wants those again
+			family = "ready-back"
+			opt.readyOwn = true
+			opt.readyBack = uint64(1 + r.Intn(3))
+			opt.handlers = 1
+			s.total = uint64(30 + r.Intn(40))
 			s.dropsLeft = 1 + r.Intn(3)
 			s.perturb = false
 		}
